@@ -16,8 +16,12 @@
      - QLPC error buffer: whatever the reused Vec<i32> held, resize + compute_error leave exactly the residuals
        of the block (C10_qlpc_buffer_ignores_stale_contents; tied by SCR QERR cases: the hook runs compute_error
        on a buffer with explicit stale contents, including the i32 / i64 path boundary).
-   PARTIAL: the mid/side frame buffer, the estimator's float buffers and the CRC scratch sinks are covered by
-   the HIST stream (natural histories and arbitrary poisoned contents, hook poison_scratch), not by a theorem. *)
+     - mid/side frame buffer: whatever a stereo FrameBuf held and whatever its previous size, resize +
+       fill_stereo_with_iter leave channel slices that are exactly the mid and the side signal
+       (C10_ms_buffer_ignores_stale_contents; this model of FrameBuf has no hook of its own, it is tied by the HIST
+       stream with poisoned buffers).
+   PARTIAL: the estimator's float buffers and the CRC scratch sinks are covered by the HIST stream (natural
+   histories and arbitrary poisoned contents, hook poison_scratch), not by a theorem. *)
 From FV Require Import Model.Base Model.Rice Model.Predict Model.Scratch Proofs.ScratchP.
 Local Open Scope N_scope.
 
@@ -51,3 +55,11 @@ Theorem C10_qlpc_buffer_ignores_stale_contents :
   qlpc_error_buffer stale q signal = lpc_errors q signal.
 Proof. exact qlpc_buffer_stale_independent. Qed.
 Print Assumptions C10_qlpc_buffer_ignores_stale_contents.
+
+Theorem C10_ms_buffer_ignores_stale_contents :
+  forall (b : fbuf) (n : nat) (pairs : list (Z * Z)),
+  (1 <= fbs_size b)%nat -> length (fbs_samples b) = (2 * fbs_size b)%nat -> (length pairs <= n)%nat ->
+  let b' := fbs_fill_stereo pairs (fbs_resize n b) in
+  fbs_channel b' 0 = map fst pairs /\ fbs_channel b' 1 = map snd pairs.
+Proof. exact ms_buffer_stale_independent. Qed.
+Print Assumptions C10_ms_buffer_ignores_stale_contents.
